@@ -36,7 +36,7 @@ Proof.
       destruct (IH _ _ _ G) as [R [L M]]. repeat split.
       * econstructor; [exact C|exact R].
       * cbn; lia.
-      * intros H. apply M. cbn in H. lia.
+      * intros HL. apply M. cbn in HL. lia.
 Qed.
 
 Lemma maxrun_get_values t : forall n p l q, maxrun t p n l q -> get_values t p n = (l, q).
@@ -50,7 +50,7 @@ Proof.
     + unfold dtok in D. rewrite D. destruct (Z.ltb_spec 0 (Z.of_nat (S k))); [|lia].
       replace (zpos p (Z.of_nat (S k))) with (p + S k) by (unfold zpos; lia).
       rewrite (IH (p + S k) l q); [reflexivity|]. repeat split; [exact R|cbn in L; lia|].
-      intros H. apply M. cbn. lia.
+      intros HL. apply M. cbn. lia.
 Qed.
 
 (* first ':' at or behind q *)
@@ -69,22 +69,24 @@ Proof.
   induction l as [|b l IH]; intros p; cbn [find_colon].
   - intros i H. cbn in H. lia.
   - destruct (N.eqb_spec b 58) as [->|NE].
-    + repeat split; try lia; [cbn; lia|rewrite Nat.sub_diag; reflexivity|intros i H; lia].
+    + split; [lia|]. split; [cbn [length]; lia|]. split; [rewrite Nat.sub_diag; reflexivity|intros i H; lia].
     + specialize (IH (S p)). destruct (find_colon l (S p)) as [c|].
-      * destruct IH as [A [B [C D]]]. repeat split; try lia; [cbn [length]; lia| |].
+      * destruct IH as [A [B [C D]]]. split; [lia|]. split; [cbn [length]; lia|]. split.
         -- replace (c - p) with (S (c - S p)) by lia. exact C.
         -- intros i H. destruct i; [exact NE|]. apply D. lia.
       * intros i H. destruct i; [exact NE|]. apply IH. cbn in H. lia.
 Qed.
 
-Lemma find_colon_first t q : q <= tlen t -> first_colon t q (find_colon (skipn q (t_bytes t)) q).
+Lemma find_colon_first t q : first_colon t q (find_colon (skipn q (t_bytes t)) q).
 Proof.
-  intros Q. pose proof (find_colon_spec (skipn q (t_bytes t)) q) as H. unfold first_colon, byte_at, tlen in *.
-  rewrite skipn_length in H. destruct (find_colon _ q) as [c|].
-  - destruct H as [A [B [C D]]]. rewrite nth_skip in C. replace (q + (c - q)) with c in C by lia.
-    repeat split; try lia; [exact C|]. intros i I1 I2. specialize (D (i - q) ltac:(lia)).
-    rewrite nth_skip in D. now replace (q + (i - q)) with i in D by lia.
-  - intros i I1 I2. specialize (H (i - q) ltac:(lia)). rewrite nth_skip in H. now replace (q + (i - q)) with i in H by lia.
+  destruct (Nat.le_gt_cases q (tlen t)) as [Q|Q].
+  - pose proof (find_colon_spec (skipn q (t_bytes t)) q) as H. unfold first_colon, byte_at, tlen in *.
+    rewrite skipn_length in H. destruct (find_colon _ q) as [c|].
+    + destruct H as [A [B [C D]]]. rewrite nth_skip in C. replace (q + (c - q)) with c in C by lia.
+      repeat split; try lia; [exact C|]. intros i I1 I2. specialize (D (i - q) ltac:(lia)).
+      rewrite nth_skip in D. now replace (q + (i - q)) with i in D by lia.
+    + intros i I1 I2. specialize (H (i - q) ltac:(lia)). rewrite nth_skip in H. now replace (q + (i - q)) with i in H by lia.
+  - unfold tlen in Q. rewrite skipn_all2 by lia. cbn. intros i I1 I2. unfold tlen in I2. lia.
 Qed.
 
 Lemma first_colon_unique t q c1 c2 : first_colon t q c1 -> first_colon t q c2 -> c1 = c2.
@@ -108,9 +110,84 @@ Definition poly_form (t : text) (p : nat) (grid : option (list fv)) (d : desc) :
     end /\
     d = PPol (zip_shift ms ss) grid.
 
-Lemma numrun_bound t p l q : numrun t p l q -> p <= tlen t -> q <= tlen t.
+Theorem poly_sound t p grid d : poly_of_text (Some t) p grid = Some d -> poly_form t p grid d.
 Proof.
-  induction 1 as [p|p k v l q D R IH]; [auto|]. intros P. apply IH.
-  unfold dtok in D. destruct (cdouble_some _ _ _ _ D) as [L [k' E]].
-  (* the token may reach past the end only with a bogus table; positions past the end stop every run *)
-Abort.
+  unfold poly_of_text. destruct (get_values t p 128) as [ms q] eqn:G.
+  pose proof (get_values_maxrun _ _ _ _ _ G) as MR.
+  destruct ms as [|m ms]; [discriminate|]. intros [= <-].
+  pose proof (find_colon_first t q) as FC. unfold poly_form.
+  destruct (find_colon (skipn q (t_bytes t)) q) as [c|].
+  - destruct (get_values t (S c) (length (m :: ms) - 1)) as [ss q'] eqn:G2.
+    exists (m :: ms), q, (Some c), ss, q'. repeat split; auto; try discriminate; try apply MR.
+    + apply (get_values_maxrun _ _ _ _ _ G2).
+    + apply (get_values_maxrun _ _ _ _ _ G2).
+    + apply (get_values_maxrun _ _ _ _ _ G2).
+  - exists (m :: ms), q, None, [], q. repeat split; auto; try discriminate; apply MR.
+Qed.
+
+Lemma numrun_det t : forall p l1 q1, numrun t p l1 q1 -> forall n l2 q2, maxrun t p n l1 q1 -> maxrun t p n l2 q2 ->
+  l1 = l2 /\ q1 = q2.
+Proof.
+  intros p l1 q1 _ n l2 q2 M1 M2. apply maxrun_get_values in M1, M2. rewrite M1 in M2. now injection M2.
+Qed.
+
+Theorem poly_complete t p grid d : poly_form t p grid d -> poly_of_text (Some t) p grid = Some d.
+Proof.
+  intros [ms [q [c [ss [q' [MR [NE [FC [SS ->]]]]]]]]]. unfold poly_of_text.
+  rewrite (maxrun_get_values _ _ _ _ _ MR). destruct ms as [|m ms]; [contradiction|].
+  rewrite (first_colon_unique _ _ _ _ (find_colon_first t q) FC). destruct c as [c|].
+  - now rewrite (maxrun_get_values _ _ _ _ _ SS).
+  - now subst ss.
+Qed.
+
+(* the null description: no coefficients, the element is the grid value itself *)
+Lemma poly_null grid : poly_of_text None 0 grid = Some (PPol [] grid).
+Proof. reflexivity. Qed.
+
+(* ---- profile descriptions *)
+Definition profile_form (grid : option (list fv)) (t : text) (d : desc) : Prop :=
+  exists g, grid = Some g /\ g <> [] /\
+  let p := skip_space_at t 0 in
+  let len := N.of_nat (length g) in
+  if prefix_ci t p n_lin then
+    exists q a b q', next_vis_cont t (p + 3) n_ear = Some q /\ numrun t q [a; b] q' /\ d = PLin len a b
+  else if prefix_ci t p n_bound then
+    exists q a b c q', next_vis_cont t (p + 5) n_ary = Some q /\ numrun t q [a; b; c] q' /\ d = PBnd len a b c
+  else if prefix_ci t p n_poly then
+    exists q, next_vis0 t (p + 4) = Some q /\ poly_form t q grid d
+  else False.
+
+Lemma numrun_maxrun t p l q : numrun t p l q -> maxrun t p (length l) l q.
+Proof. intros R. repeat split; [exact R|lia|lia]. Qed.
+
+Lemma maxrun_full t p n l q : maxrun t p n l q -> length l = n -> numrun t p l q.
+Proof. now intros [R _] _. Qed.
+
+Theorem profile_iff grid t d : parse_profile grid (Some t) = Some d <-> profile_form grid t d.
+Proof.
+  unfold parse_profile, profile_form. split.
+  - destruct grid as [g|]; [|discriminate]. destruct (N.eqb_spec (N.of_nat (length g)) 0) as [Z|NZ]; [discriminate|].
+    intros H. exists g. split; [reflexivity|]. split; [intros ->; apply NZ; reflexivity|]. cbv zeta.
+    destruct (prefix_ci t (skip_space_at t 0) n_lin).
+    + destruct (next_vis_cont _ _ n_ear) as [q|]; [|discriminate].
+      destruct (get_values t q 2) as [l q'] eqn:G. pose proof (get_values_maxrun _ _ _ _ _ G) as [R _].
+      cbn [fst] in H. destruct l as [|a [|b [|c l]]]; try discriminate. injection H as <-.
+      exists q, a, b, q'. auto.
+    + destruct (prefix_ci t (skip_space_at t 0) n_bound).
+      * destruct (next_vis_cont _ _ n_ary) as [q|]; [|discriminate].
+        destruct (get_values t q 3) as [l q'] eqn:G. pose proof (get_values_maxrun _ _ _ _ _ G) as [R _].
+        cbn [fst] in H. destruct l as [|a [|b [|c [|e l]]]]; try discriminate. injection H as <-.
+        exists q, a, b, c, q'. auto.
+      * destruct (prefix_ci t (skip_space_at t 0) n_poly); [|discriminate].
+        destruct (next_vis0 _ _) as [q|]; [|discriminate]. exists q. split; [reflexivity|]. now apply poly_sound.
+  - intros [g [-> [NE F]]]. cbv zeta in F.
+    destruct (N.eqb_spec (N.of_nat (length g)) 0) as [Z|NZ]; [destruct g; [contradiction|discriminate]|].
+    destruct (prefix_ci t (skip_space_at t 0) n_lin).
+    + destruct F as [q [a [b [q' [NV [R ->]]]]]]. rewrite NV.
+      rewrite (maxrun_get_values _ _ _ _ _ (numrun_maxrun _ _ _ _ R)). reflexivity.
+    + destruct (prefix_ci t (skip_space_at t 0) n_bound).
+      * destruct F as [q [a [b [c [q' [NV [R ->]]]]]]]. rewrite NV.
+        rewrite (maxrun_get_values _ _ _ _ _ (numrun_maxrun _ _ _ _ R)). reflexivity.
+      * destruct (prefix_ci t (skip_space_at t 0) n_poly); [|contradiction].
+        destruct F as [q [NV PF]]. rewrite NV. now apply poly_complete.
+Qed.
